@@ -134,9 +134,15 @@ def rule_full_data(ctx):
               "direction selection in get_full_data is %s" % sel, ctx.loc(b))
 
 
+VIEW_HELPERS = ("http_process::parse_http_request", "http_process::parse_http_response")
+
+
 def rule_process(ctx):
     P = ctx.program
-    b = P.body(HP + "process_tcp_packet")
+    # process_tcp_packet is read with its two one-call wrappers (parse_http_request / parse_http_response: `match
+    # processors.parse_x(data) { Some(r) => Ok(Some(r)), None => Ok(None) }` plus logging) written out at their calls - the same
+    # statements whether the wrappers exist or were folded into the caller
+    b = P.inlined_view(HP + "process_tcp_packet", VIEW_HELPERS)
     S = T.Slicer(b, P)
 
     def endpoint_atoms(conds):
@@ -166,7 +172,7 @@ def rule_process(ctx):
 
     # R3 / R4 stores into the package
     n = 0
-    for fld, side, parser in (("http_request", "client", "parse_http_request"), ("http_response", "server", "parse_http_response")):
+    for fld, side, parser in (("http_request", "client", "HttpProcessors::parse_request"), ("http_response", "server", "HttpProcessors::parse_response")):
         stores = []
         for i, j, s in b.iter_stmts():
             if s["k"] == "assign" and any(isinstance(x, dict) and x.get("n") == fld for x in s["p"]["pr"]) and b.local_name(s["p"]["l"]) == "observable_http_package":
@@ -225,7 +231,8 @@ def rule_process(ctx):
         a = Q.call_args(b, S, blk, t)
         if any(x[0] == "field" and x[2] in ("client_data", "server_data") for x in T.walk(a[0])):
             store_blocks.add(blk)
-    trails, trunc = PA.enumerate_paths(b, 0, 8000)
+    # (paths are followed up to the first store: what happens after it - parsing, reporting - does not matter here)
+    trails, trunc = PA.enumerate_paths(b, 0, 8000, stop=set(store_blocks))
     unexplained = None
     nskip = 0
     for tr in trails:
@@ -375,15 +382,15 @@ def rule_completeness(ctx):
             ctx.fail("R3", fn + ":incomplete-iff-no-blank-line",
                      "%s no longer decides `head incomplete` by searching the reassembled bytes for a blank line (CRLF CRLF / LF LF): a head cut right after a line end can be "
                      "taken for complete and reported with the headers seen so far" % fn, ctx.loc(b))
-    pb = P.body(HP + "process_tcp_packet")
+    pb = P.inlined_view(HP + "process_tcp_packet", VIEW_HELPERS)
     SP = T.Slicer(pb, P)
     n = 0
     for blk, t in pb.calls():
         nm = callee_of(t).rsplit("::", 1)[-1]
-        if nm in ("has_complete_http_data", "parse_http_request", "parse_http_response"):
+        if nm == "has_complete_http_data" or callee_of(t).endswith(("HttpProcessors::parse_request", "HttpProcessors::parse_response")):
             a = Q.call_args(pb, SP, blk, t)
             n += 1
-            ctx.check(T.has_call(a[0], "get_full_data"), "R3", "process_tcp_packet:%s:input@%d" % (nm, n), "%s looks at the reassembled bytes of the direction" % nm,
+            ctx.check(any(T.has_call(x_, "get_full_data") for x_ in a), "R3", "process_tcp_packet:%s:input@%d" % (nm, n), "%s looks at the reassembled bytes of the direction" % nm,
                       "%s is given %s, not the reassembled stream: whether a message is reported depends on how it was cut into segments" % (nm, T.pp(T.strip(a[0]))[:60]),
                       ctx.loc(pb, blk))
     ctx.floor("R3", "completeness / parse calls in process_tcp_packet", n, 4)
